@@ -71,12 +71,14 @@ CHECKS = {
         'combination counts and exact chunk counts are NOT decided.'),
   note=TB),
  'C08': dict(
-  technique='static analysis: call-graph identity of the learner core, value-flow of hyper-parameters to the formals of the constraint generator, frame typing of the gather X[constraints], constructor forwarding (shared with C18)',
+  technique='static analysis: call-graph identity of the learner core, value-flow of hyper-parameters to the formals of the constraint generator, frame typing of the gather X[constraints], dependence tags separating all-rows values from known-label gathers, FRESH rule (shared with C17), constructor forwarding (shared with C18)',
   text=('Decides for the six *_Supervised estimators: fit runs on every path the very function the weakly-supervised fit runs; '
         'constraints come from the documented Constraints generator with self.random_state / n_constraints (20*n_classes^2 when None) / '
         'same_length (LSML) / n_chunks, chunk_size (RCA) / k_genuine, k_impostor (SCML) bound to the right formals; the labels given to '
         'Constraints and the points gathered by the constraints come from one _prepare_inputs call and every gather uses indices into '
-        'that same array restricted to known labels (unlabeled points are absent); every constructor parameter reaches the shared core '
+        'that same array restricted to known labels (unlabeled points are absent); the feature values of the prepared data reach the base algorithm only through '
+        'gathers restricted to known labels (no statistic of all rows, no row count - this rule found the LDA-basis defect of SCML_Supervised, repaired); '
+        'no hyper-parameter object is written in place by a supervised fit; every constructor parameter reaches the shared core '
         'with the caller\'s value. Numeric equality of the two fits follows from "same function, same arguments" and is not separately decided.'),
   note=TB),
  'C09': dict(
@@ -87,7 +89,7 @@ CHECKS = {
         'rows with chunk != -1, and _inv_sqrtm is V Diag(w^-1/2) V^T; LFDA keeps eigenvectors by decreasing eigenvalue, stores vecs.T '
         'and handles exactly the documented embedding_type values; the LFDA scatter accumulation statements, as linear combinations '
         'with exact rational coefficients in n and n_c, equal the pairwise-defined local scatters (this rule found the tSw sign defect, '
-        'repaired); RCA\'s inner covariance uses bias=1 and every chunk id is centred. Equality of the learned matrix with the documented formula on any '
+        'repaired); RCA\'s inner covariance uses bias=1 and every chunk id is centred; on every path RCA stores W = _inv_sqrtm(S) R with R C R^T = S for the inner covariance C, so that W C W^T = I follows from the certified spectral form. Equality of the learned matrix with the documented formula on any '
         'dataset (scatter algebra, whitening identity, singular covariances) is NOT decided. Known finding: LFDA local-scale axis.'),
   note=TB),
  'C10': dict(
@@ -97,7 +99,8 @@ CHECKS = {
         'objectives are non-increasing and the result is never worse than the init; zero iterations return the init); NCA/MLKR hand '
         'x0 = init.ravel() to scipy.optimize.minimize and store the reshaped result; the (value, gradient) callback returns both with '
         'the same sign factor, bound to a negative literal for NCA; np.fill_diagonal(dist, inf) precedes the soft-max on every path; LMNN weights pull by reg and push by 1-reg in G, the objective and the returned 2 L G; '
-        'MLKR\'s objective receives the validated (X, y) themselves. '
+        'MLKR\'s objective receives the validated (X, y) themselves; a bounded retry loop (exit by exhaustion) is refuted; '
+        'LMNN examines every pair of differently labelled points exactly once (in: label == c, out: label > c) and compares each margin along its own axis. '
         'That value and gradient EQUAL the documented objective and its derivative is NOT decided.'),
   note=TB),
  'C11': dict(
@@ -106,7 +109,7 @@ CHECKS = {
         'lambda_i >= 0 is an inductive invariant of both projection loops; between the prior and components_from_metric the matrix is '
         'written only by rank-one updates A += outer(Av, Av*beta) (Sherman-Morrison: M^-1 - M0^-1 is a combination of v v^T); the prior '
         'is requested strictly PD and computed from the training pairs themselves; the step alpha, the rank-one coefficient beta and the '
-        'slack update of both loops equal the documented cyclic Bregman projection as exact rational functions. Tightness/inactivity at convergence, KKT optimality and "prior returned unchanged" are NOT decided.'),
+        'slack update of both loops equal the documented cyclic Bregman projection as exact rational functions; explicit bounds reach bounds_ through value-preserving conversions only (same numbers, same order), default bounds are the (5, 95) percentiles of the pairwise distances among the distinct points; the caller\'s prior / bounds objects are never written to. Tightness/inactivity at convergence, KKT optimality and "prior returned unchanged" are NOT decided.'),
   note=TB),
  'C12': dict(
   technique='static analysis: guard normalisation of the acceptance test, symbolic spectral form of the SPD floor, dependence sets of loss vs search direction (sibling agreement), FRESH rule for the weights',
@@ -115,7 +118,7 @@ CHECKS = {
         'search direction reads every input the loss reads (metric, vab, vcd, prior_inv, w_) - also for MMC\'s value/derivative pairs; '
         'the caller\'s weights are not modified; the per-constraint loss is w (sqrt(d_ab)-sqrt(d_cd))^2 and the gradient coefficients '
         'are its symbolic derivatives, the regulariser is tr(M M0^-1) - logdet M with gradient M0^-1 - M^-1; the main loop stops only '
-        'on the documented criteria. Stationarity and global minimality are NOT decided.'),
+        'on the documented criteria; the sequences zipped in _gradient are restricted by one mask (weights aligned with their constraints); the eigenvalue floor is a fixed constant, not a hyper-parameter. Stationarity and global minimality are NOT decided.'),
   note=TB),
  'C13': dict(
   technique='static analysis: path-forking dependence sets at the graphical-lasso call site (which element of the prior pair, which hyper-parameters, labels), dominance of the solver call and of the result vetting over the store of components_, exception-class resolution, exact-form rule on the vetting predicate and the empirical matrix',
@@ -133,7 +136,7 @@ CHECKS = {
         'hundredth of w.A computed before any update; in the diagonal variant every candidate is np.maximum(0, .) and A_ = diag(w); '
         'every objective evaluation is followed by assert_all_finite; the `satisfy` flag is reset at the start of every projection cycle; '
         'the projection onto the budget hyperplane and the half-space step equal the documented formulas as exact rational functions; '
-        'no hyper-parameter is reassigned. That the budget is met numerically is NOT decided.'),
+        'no hyper-parameter is reassigned and the caller\'s init object is never written to. That the budget is met numerically is NOT decided.'),
   note=TB),
  'C15': dict(
   technique='static analysis: sign algebra over the weight update, symbolic matrix-algebra evaluation of _components_from_basis_weights, guard normalisation of the checkpoint, value-flow of normalize(), exact rational-function comparison of the dual-averaging step, loop-exit rule, shared definite-assignment, RNG and hyper-parameter rules',
@@ -200,7 +203,7 @@ CHECKS = {
         'rowvar=False); make_spd_matrix; the checked copy) as the pair (X, X^-1) in that order, dispatches every accepted value, '
         'rejects others with ValueError, and never returns a non-definite matrix under strict_pd; ITML/LSML/SDML pass strict_pd=True '
         'and MMC does not; _initialize_components dispatches/rejects per documented table, _auto_select_init is the documented three-way '
-        'rule, array init shape checks exist; SCML basis option tables agree with their dispatch. Numeric tolerance behaviour is NOT decided.'),
+        'rule, array init shape checks exist; SCML basis option tables agree with their dispatch; the default eigenvalue tolerance of the definiteness test and of the pseudo-inverse is the same documented level max|w| * len(w) * eps. Numeric tolerance behaviour is NOT decided.'),
   note=TB),
 }
 
